@@ -710,8 +710,11 @@ loop:
 				// if the stream doesn't exist, create it
 
 				if fr.Type() == FrameResetStream {
-					// only send go away on idle stream not on an already-closed stream
-					if fr.Stream() > sc.lastID {
+					// only send go away on idle stream not on an already-closed
+					// stream. A stream we refused is closed although its id is
+					// above lastID: the peer may well have cancelled it before
+					// it saw the refusal.
+					if _, closed := closedStrms[fr.Stream()]; !closed && fr.Stream() > sc.lastID {
 						sc.writeGoAway(fr.Stream(), ProtocolError, "RST_STREAM on idle stream")
 					}
 
